@@ -32,6 +32,12 @@ HISTORY = {
     'R4-R': 'fourth round (area: closeHandshake result); caught at the first trial',
     'R4-S': 'fourth round (area: wsjson.Write). First trial: MISSED → wsjson kind `rawwrite` (nil / malformed / valid / nested json.RawMessage values)',
     'R4-T': 'fourth round (area: method check of verifyClientRequest); caught at the first trial',
+    'R5-U': 'fifth round (area: handshake nonce); caught at the first trial (concurrent Dials of the hs-dial suite got duplicate keys / a panic; the nonce-freshness check across two Dials was added just before)',
+    'R5-V': 'fifth round (area: newConn / bufio sizing); caught at the first trial',
+    'R5-W': 'fifth round (area: wsjson.Read buffer release); caught at the first trial by the `overlap` kind',
+    'R5-X': 'fifth round (area: Accept after verification). First trial: MISSED → hs-accept cases through a ResponseWriter that cannot be hijacked (valid request => 501, never 101)',
+    'R5-Y': 'fifth round (area: SetReadLimit bookkeeping); caught at the first trial (default-limit boundary 32768 / 32769)',
+    'R5-Z': 'fifth round (area: error-triggered closes); caught at the first trial',
     'R2-C19': 'second round. Caught at the first trial, but only by chance (two wsjson cases of the same run happened to share the doubly pooled buffer): the final regression over all seeded changes missed it once → wsjson kind `overlap` (a rejected document, then two overlapping reads on other connections under GOMAXPROCS(1)) makes it deterministic',
     'R2-C04': 'second round, first trial: MISSED (the sweep of cut offsets used only 7-bit frame lengths) → header-region cut sweep over every length encoding and order (16-bit first on a fresh connection, after a 64-bit one, after a multiple of 256), both roles, both endings',
     'R2-C07': 'second round, first trial: MISSED (the suite always read a message to its end before the next one) → histories that start the next message after reading only a prefix of a small compressed one (`msgnf` / `plainnf`); the replay then reports `put-by-non-holder`',
@@ -45,7 +51,7 @@ HISTORY = {
 }
 print('| seeded change (property it breaks) | what it does | what it needs to show | confirmed | checks run on it → result (current machinery) | history |')
 print('|---|---|---|---|---|---|')
-for d in sorted(glob.glob(os.path.join(ROOT, 'seeded', 'C*'))) + sorted(glob.glob(os.path.join(ROOT, 'seeded', 'R2-C*'))) + sorted(glob.glob(os.path.join(ROOT, 'seeded', 'R3-*'))) + sorted(glob.glob(os.path.join(ROOT, 'seeded', 'R4-*'))):
+for d in sorted(glob.glob(os.path.join(ROOT, 'seeded', 'C*'))) + sorted(glob.glob(os.path.join(ROOT, 'seeded', 'R2-C*'))) + sorted(glob.glob(os.path.join(ROOT, 'seeded', 'R3-*'))) + sorted(glob.glob(os.path.join(ROOT, 'seeded', 'R4-*'))) + sorted(glob.glob(os.path.join(ROOT, 'seeded', 'R5-*'))):
     sid = os.path.basename(d)
     try:
         meta = json.load(open(os.path.join(d, 'meta.json')))
